@@ -131,8 +131,38 @@ fn family(base: &Dec, ks: impl Iterator<Item = u64>) -> Vec<Dec> {
 }
 
 fn replay(case: &Value) -> Vec<Violation> {
-    let (a, b) = (jd(&case["reference"]), jd(&case["member"]));
     let mut out = vec![];
+    // a recorded family (HashSet collapse): every member against the first
+    if let Some(fam) = case.get("family").and_then(|f| f.as_array()) {
+        let xs: Vec<BigDecimal> = fam.iter().map(|m| bd(&jd(m))).collect();
+        let set: HashSet<BigDecimal> = xs.iter().cloned().collect();
+        if set.len() != 1 || !xs.iter().all(|x| set.contains(x)) {
+            out.push(Violation::new("HashSet<BigDecimal>", "no_collision", case.clone(), "1 element", format!("{} elements", set.len())));
+        }
+        return out;
+    }
+    // a recorded pair of sequences "[a, b, c]": slice hashing of element-wise value-equal sequences
+    let seq = |v: &Value| -> Option<Vec<BigDecimal>> {
+        let t = v.as_str()?;
+        let t = t.strip_prefix('[')?.strip_suffix(']')?;
+        Some(t.split(", ").map(|e| bd(&Dec::parse(e).expect("bad sequence element"))).collect())
+    };
+    if let (Some(ra), Some(rb)) = (seq(&case["reference"]), seq(&case["member"])) {
+        let record = |xs: &[BigDecimal]| -> (Vec<(u8, Vec<u8>)>, u64) {
+            let mut r = Recorder::default();
+            xs.hash(&mut r);
+            let mut d = std::collections::hash_map::DefaultHasher::new();
+            xs.to_vec().hash(&mut d);
+            (r.calls, d.finish())
+        };
+        match (guard(|| record(&ra)), guard(|| record(&rb))) {
+            (Ok(wa), Ok(wb)) if wa == wb => {}
+            (Ok(wa), Ok(wb)) => out.push(Violation::new("Hash::hash_slice", "hash_differs", case.clone(), format!("{:?}", wa.1), format!("{:?}", wb.1))),
+            (Err(p), _) | (_, Err(p)) => out.push(Violation::new("Hash::hash_slice", "panic", case.clone(), "no panic", p)),
+        }
+        return out;
+    }
+    let (a, b) = (jd(&case["reference"]), jd(&case["member"]));
     let (xa, xb) = (bd(&a), bd(&b));
     match (guard(|| observe(&xa)), guard(|| observe(&xb))) {
         (Ok(oa), Ok(ob)) => {
